@@ -539,6 +539,9 @@ func (r *result) adjustArgs(args []string, plugin string) error {
 	if args[0] == "" {
 		r.owners.clearArgs(id)
 		args = args[1:]
+		if len(args) == 0 {
+			return nil
+		}
 	}
 
 	if err := r.owners.claimArgs(id, plugin); err != nil {
